@@ -110,6 +110,15 @@ def run_history(chk, uni, drv, rng, length, stats):
                     op = {"op": "deactivate", "p": p, "exc": rng.random() < 0.3}
             elif r < 0.58:
                 op = {"op": "attach", "p": p, "stage": run.nstages[p]}
+            elif r < 0.61:
+                # not an operation of the model: a suspended instrumented generator is advanced one step
+                op = {"op": "resume"}
+                out = run.step(op)
+                chk.dist("resume")
+                if out != {"context_same": True}:
+                    chk.violation("oracle", "advancing a suspended instrumented generator changed the handler context "
+                                  "of the code that advanced it", {"probes": probe_sels, "history": hist + [op]})
+                continue
             elif r < 0.64:
                 # not an operation of the model: a call of OTHER functions left by an exception of a handler
                 op = {"op": "storm", "x": rng.randrange(0, 5)}
